@@ -225,6 +225,12 @@ func vpH_t_ProgressOps() {
 		vpAssert(vpImplies(pre.State == StateReplicate, pr.Next == pre.Next+uint64(n)), "C16/L4/sent-advances-next")
 		vpAssert(vpImplies(vpAnd(pre.State == StateReplicate, n > 0), pr.Inflights.count == preCount+1), "C16/L4/sent-occupies-slot")
 		vpAssert(vpImplies(pre.State == StateReplicate, pr.MsgAppFlowPaused == pr.Inflights.Full()), "C16/L4/paused-iff-full")
+		if pre.State == StateReplicate && n > 0 && pr.Inflights.count == preCount+1 {
+			// the slot is released by the acknowledgement of the message's last entry, not an earlier one
+			in := pr.Inflights
+			last := in.buffer[(in.start+in.count-1)%in.size]
+			vpAssert(vpAnd(last.index == pre.Next+uint64(n)-1, last.bytes == by), "C16/L4/slot-records-last-entry-and-bytes")
+		}
 		vpAssert(vpImplies(vpAnd(pre.State == StateProbe, n > 0), pr.MsgAppFlowPaused), "C16/L4/probe-pauses-after-one")
 		vpAssert(vpImplies(pre.State == StateProbe, pr.Next == pre.Next), "C16/L4/probe-keeps-next")
 		vpProgressPost(pr, pre.Match, "I-prog/sent")
